@@ -35,6 +35,9 @@ def _key(r, c):
         k["keyword"] = c.get("kw", "")
         k["out_layout"] = c.get("lo", "C")
         k["in_layout"] = c.get("li", "C")
+        k["rank_lift"] = c.get("rk", 0)
+        k["alias"] = c.get("al", "N")
+        k["data"] = c.get("dc", "plain")
     return k
 
 
@@ -44,6 +47,10 @@ def _short(c):
     x = "%s[%s/%s] shape=%s dtype=%s seed=%s" % (c["fn"], c["cls"], c["t"], c["sh"], c["dt"], c["sd"])
     if c.get("kw"):
         x += " +%s=%s data=%s" % (c["kw"], c["kv"], c["dc"])
+    if c.get("rk"):
+        x += " rank+1"
+    if c.get("al", "N") != "N" or (c.get("dc", "plain") != "plain" and not c.get("kw")):
+        x += " alias=%s data=%s" % (c.get("al"), c.get("dc"))
     if c.get("li", "C") != "C" or c.get("lo", "C") != "C":
         x += " layouts in=%s out=%s" % (c.get("li"), c.get("lo"))
     return x
@@ -52,10 +59,21 @@ def _short(c):
 def _validate(ck, obs, label, fixes):
     fx = ck.write_json("fixes.json", sorted(fixes))
     nfail = 0
-    for off in range(0, len(obs), CHUNK):
+    import concurrent.futures as cf
+
+    from common import NCPU
+
+    offs = list(range(0, len(obs), CHUNK))
+
+    def one(off):
         part = obs[off : off + CHUNK]
         path = ck.write_json(f"obs_{label}_{off}.json", part)
-        res = ck.tlc("Trace_C06", env={"OBS": path, "FIXES": fx}, workers=1, coverage=False, label=f"trace validation {label} [{off}:{off + len(part)}]", timeout=3000)
+        return ck.tlc("Trace_C06", env={"OBS": path, "FIXES": fx}, workers=1, coverage=False, label=f"trace validation {label} [{off}:{off + len(part)}]", timeout=3000)
+
+    with cf.ThreadPoolExecutor(max_workers=max(1, min(NCPU, 8))) as ex:
+        results = list(ex.map(one, offs))  # chunk order is kept: verdict order is deterministic
+    for off, res in zip(offs, results):
+        part = obs[off : off + CHUNK]
         if res.distinct != len(part) + 1:
             raise MachineryFailure(f"trace validation consumed {res.distinct} states, expected {len(part) + 1}")
         orc = res.by_tag("ORACLE")
